@@ -493,9 +493,11 @@ def run(ctx):
         "rule": "an evaluation is one (input, concrete fault sequence, entry point group) event; abstract fault sequences are "
                 "enumerated by TLC (MC_FaultModel, config %s) and instantiated by the deterministic plan of c01_faults.rs: every "
                 "directory / header field of every input x every value class, structural faults on the directory records, "
-                "table-level fields (quick: every structural non-value field of the champion inputs - a cover of all kinds of "
-                "field per table kind plus every variable font - and seeded picks per role x class elsewhere; thorough: every "
-                "structural field plus a sample of the hook-discovered ones), seeded pairs (thorough: triples); a case = (input, concrete fault sequence); it is "
+                "table-level fields (quick: every structural non-value field of the champion inputs x every class and every array "
+                "element of theirs x every relational class - a cover of all kinds of field per table kind plus every variable "
+                "font - and seeded picks per role x class elsewhere; thorough: every structural field plus a sample of the "
+                "hook-discovered ones; relational classes only where the walk knows the sibling, on directory records a seeded "
+                "sample per input), seeded pairs (thorough: triples); a case = (input, concrete fault sequence); it is "
                 "non-trivial when at least one group answered differently from its baseline on the intact input (outcome or "
                 "number of calls that returned a value / an error), i.e. allsorts noticed the fault; sequences that leave the "
                 "bytes unchanged are not run" % cfg,
